@@ -140,6 +140,26 @@ def run(tier, seed, broken_proof=False):
         jid = "%s@%s" % (c["id"], ops.cfg_name(cfg))
         jobs.append((dict(c, id=jid), cfg, calls))
         expect[jid] = (c, cfg, calls)
+    # hand-built sessions: two queries whose formulas print alike (flat conjunctions of seven literals differing in the first one; a deep
+    # strengthening of a base antecedent and of its negation) asked in one batch in both orders and in separate calls - anything the
+    # manager remembers per printed text of a query shows here whatever the generator draws
+    def chain(lits):
+        cur = lits[0]
+        for l in lits[1:]:
+            cur = And(cur, l)
+        return cur
+    tw_base = [(1, V(7), V(0)), (2, Not(V(7)), Not(V(0)))]
+    tail = [V(1), V(2), V(3), V(4), V(5), V(6)]
+    tq1, tq2 = (V(7), chain([V(0)] + tail)), (V(7), chain([Not(V(0))] + tail))
+    tq3 = (Not(V(7)), chain([Not(V(0))] + tail))
+    for ti, cfg in enumerate([("system-w", "rc2"), ("lex_inf", "rc2"), ("c-inference", "rc2"), ("system-w", "z3"), ("system-z", ""), ("p-entailment", "")]):
+        for oi, calls in enumerate(([([(3, tq1[0], tq1[1]), (5, tq2[0], tq2[1]), (8, tq3[0], tq3[1])], False)],
+                                    [([(4, tq2[0], tq2[1])], False), ([(9, tq1[0], tq1[1]), (2, tq3[0], tq3[1])], False)],
+                                    [([(6, tq3[0], tq3[1]), (1, tq1[0], tq1[1])], False), ([(7, tq2[0], tq2[1])], False)])):
+            c = make_case("tw%d_%d" % (ti, oi), 8, tw_base, [(1, tq1[0], tq1[1])], False)
+            jid = "%s@%s" % (c["id"], ops.cfg_name(cfg))
+            jobs.append((dict(c, id=jid), cfg, calls))
+            expect[jid] = (c, cfg, calls)
     # model answers: every distinct query asked alone on a fresh model
     mcases = []
     for jid, (c, cfg, calls) in expect.items():
